@@ -98,21 +98,21 @@ func (l *NetListener) AcceptSim() (*NetConn, error) {
 }
 
 func (l *NetListener) Close() error {
-	l.n.mu.Lock()
+	l.n.mu.LockQuiet()
 	if l.n.listeners[l.addr] == l {
 		delete(l.n.listeners, l.addr)
 	}
-	l.n.mu.Unlock()
-	l.mu.Lock()
+	l.n.mu.UnlockQuiet()
+	l.mu.LockQuiet()
 	if l.closed {
-		l.mu.Unlock()
+		l.mu.UnlockQuiet()
 		return net.ErrClosed
 	}
 	l.closed = true
 	bl := l.backlog
 	l.backlog = nil
 	l.cv.Broadcast()
-	l.mu.Unlock()
+	l.mu.UnlockQuiet()
 	for _, c := range bl {
 		c.Reset()
 	}
@@ -490,9 +490,11 @@ func (c *NetConn) deliver(data []byte) {
 	})
 }
 
+// (Close, Reset and the listener's Close do not yield inside: net/http closes
+// its listeners and connections with a sync.Mutex of its own held)
 func (c *NetConn) Close() error {
-	c.mu.Lock()
-	defer c.mu.Unlock()
+	c.mu.LockQuiet()
+	defer c.mu.UnlockQuiet()
 	if c.closed {
 		return net.ErrClosed
 	}
@@ -505,11 +507,11 @@ func (c *NetConn) Close() error {
 
 // Reset fails the connection in both directions; unread data is discarded.
 func (c *NetConn) Reset() {
-	c.mu.Lock()
+	c.mu.LockQuiet()
 	*c.reset = true
 	c.rd.buf, c.wr.buf = nil, nil
 	c.cv.Broadcast()
-	c.mu.Unlock()
+	c.mu.UnlockQuiet()
 }
 
 func (c *NetConn) IsClosed() bool {
